@@ -65,6 +65,12 @@ def run(ctx):
     r153(ctx, rep)
     r153_memory(ctx, rep)
     r154_155(ctx, rep)
+    rep.rule('R15.6', 'one row per record in the readers, one record per row in the writers, on every path of the loop')
+    r156(ctx, rep)
+    rep.rule('R15.7', 'the Uncloseable stream proxy is transparent: everything but close() is answered by the wrapped stream')
+    r157(ctx, rep)
+    rep.rule('R15.8', 'appending text never writes a second byte order mark: no append writer wraps a member-restarting (gzip / bz2) stream with a BOM-capable caller encoding unchanged')
+    r158(ctx, rep)
 
 
 def r151(ctx, rep):
@@ -294,3 +300,196 @@ def r154_155(ctx, rep):
         rep.held('R15.5', wo, "f.write('\\n') per record", '', wo.node)
     else:
         rep.violated('R15.5', wo, "f.write('\\n') per record", 'json lines records must each be terminated by one newline', wo.node)
+
+
+# ------------------------------------------------------------------------ R15.6
+RECORD_READERS = ['petl.io.csv_py3:CSVView.__iter__', 'petl.io.pickle:PickleView.__iter__', 'petl.io.text:TextView.__iter__']
+RECORD_WRITERS = {'petl.io.csv_py3:_writecsv': ('writerow',), 'petl.io.pickle:_writepickle': ('dump',),
+                  'petl.io.text:_writetext': ('write',)}
+
+
+def _count_paths(body, is_event):
+    """like c16._paths but counting arbitrary events: (cont, term) sets of counts"""
+    cont = {0}
+    term = set()
+
+    def add(a, b):
+        return None if a is None or b is None else a + b
+    for s in body:
+        if isinstance(s, ast.If):
+            ca, ta = _count_paths(s.body, is_event)
+            cb, tb = _count_paths(s.orelse, is_event)
+            new_c, new_t = ca | cb, ta | tb
+        elif isinstance(s, ast.Try):
+            new_c, new_t = _count_paths(s.body + s.orelse, is_event)
+            new_c, new_t = set(new_c), set(new_t)
+            for h in s.handlers:
+                ch, th = _count_paths(h.body, is_event)
+                new_c |= ch
+                new_t |= th
+        elif isinstance(s, (ast.For, ast.While)):
+            ci, ti = _count_paths(s.body, is_event)
+            new_c, new_t = ({0} if (ci | ti) == {0} else {None}), set()
+        elif isinstance(s, ast.With):
+            new_c, new_t = _count_paths(s.body, is_event)
+        elif isinstance(s, (ast.Continue, ast.Break, ast.Return, ast.Raise)):
+            term |= cont
+            cont = set()
+            break
+        else:
+            new_c, new_t = {sum(1 for x in ast.walk(s) if is_event(x))}, set()
+        term |= {add(a, b) for a in cont for b in new_t}
+        cont = {add(a, b) for a in cont for b in new_c}
+    return cont, term
+
+
+def r156(ctx, rep):
+    """Every record of the file becomes one row and every row one record: the
+    record loops of the readers yield exactly once per pass, on every path
+    (no record -- an empty row, a blank line -- is skipped), and the row loops
+    of the writers write exactly once per pass."""
+    n = 0
+    for fq in RECORD_READERS:
+        fn = ctx.project.need_fn(fq)
+        loops = [l for l in own_nodes(fn.node) if isinstance(l, (ast.For, ast.While)) and
+                 any(isinstance(x, ast.Yield) for b in l.body for x in ast.walk(b))]
+        inner = [l for l in loops if not any((m is not l) and any(x is m for x in ast.walk(l)) for m in loops)]
+        if not inner:
+            raise AnalysisError('anchor vanished: record loop of %s' % fq)
+        for lp in inner:
+            n += 1
+            cont, term = _count_paths(lp.body, lambda x: isinstance(x, (ast.Yield, ast.YieldFrom)))
+            # leaving the loop through a handler (EOFError -> end of file) is not a pass
+            counts = cont | {c for c in term if c != 0}
+            skips = 0 in (cont | term) and any(isinstance(x, ast.Continue) for b in lp.body for x in ast.walk(b))
+            c = 'record loop: %s' % norm(lp)[:60]
+            if counts == {1} and not skips:
+                rep.held('R15.6', fn, c, 'one row per record on every path', lp)
+            else:
+                rep.violated('R15.6', fn, c,
+                             'a pass through the record loop yields %s row(s) depending on the path: some records of the file '
+                             '(an empty row is written as a bare line terminator and read back as []) are dropped or '
+                             'multiplied on the way in, so what was written is not what is read'
+                             % sorted(cont | term, key=lambda x: (x is None, x)), lp)
+    for fq, meths in sorted(RECORD_WRITERS.items()):
+        fn = ctx.project.need_fn(fq)
+
+        def is_write(x, meths=meths):
+            return isinstance(x, ast.Call) and isinstance(x.func, ast.Attribute) and x.func.attr in meths
+        loops = [l for l in own_nodes(fn.node) if isinstance(l, ast.For) and
+                 any(is_write(x) for b in l.body for x in ast.walk(b))]
+        if not loops:
+            raise AnalysisError('anchor vanished: row loop of %s' % fq)
+        for lp in loops:
+            n += 1
+            cont, term = _count_paths(lp.body, is_write)
+            counts = cont | term
+            c = 'row loop: %s' % norm(lp)[:60]
+            if counts == {1}:
+                rep.held('R15.6', fn, c, 'one record per row on every path', lp)
+            else:
+                rep.violated('R15.6', fn, c, 'a pass through the row loop writes %s record(s) depending on the path: rows '
+                             'are dropped or duplicated on the way out' % sorted(counts, key=lambda x: (x is None, x)), lp)
+    ctx.floor('record_loops', n, 6)
+
+
+# ------------------------------------------------------------------------ R15.7
+def r157(ctx, rep):
+    """MemorySource / stdin / stdout hand their stream out wrapped in
+    Uncloseable.  The text layer (io.TextIOWrapper) asks the stream what it can
+    do -- seekable(), tell(), readable(), writable() -- and, e.g., decides from
+    seekable()/tell() whether a BOM has to be written when appending.  The proxy
+    therefore has to answer exactly as the stream would: apart from close()
+    every attribute is delegated to the inner stream."""
+    ci = ctx.project.need_class('petl.io.sources:Uncloseable')
+    allowed = {'__init__', '__getattr__', '__setattr__', 'close', '__enter__', '__exit__'}
+    n = 0
+    ga = ci.methods.get('__getattr__')
+    if ga is None or 'getattr(self._inner' not in ' '.join(norm(b) for b in ga.node.body):
+        rep.violated('R15.7', (ci.module.name, ci.name), '__getattr__', 'the proxy no longer delegates unknown attributes to the inner stream', ci.node)
+    else:
+        n += 1
+        rep.held('R15.7', ga, '__getattr__', 'delegates to the inner stream', ga.node)
+    for name, m in sorted(ci.methods.items()):
+        if name in allowed:
+            continue
+        n += 1
+        body = ' '.join(norm(b) for b in m.node.body)
+        if ('self._inner.%s(' % name) in body or ('getattr(self._inner, %r)' % name) in body:
+            rep.held('R15.7', m, name, 'delegates to the inner stream', m.node)
+        else:
+            rep.violated('R15.7', m, name,
+                         'Uncloseable.%s answers for itself instead of asking the wrapped stream: the text layer on top '
+                         '(TextIOWrapper) then treats an in-memory / standard stream differently from a file (e.g. BOM '
+                         'handling on append depends on seekable() and tell()), so to+append no longer equals to(cat)' % name,
+                         m.node)
+    close = ci.methods.get('close')
+    if close is None:
+        rep.violated('R15.7', (ci.module.name, ci.name), 'close', 'close() is no longer intercepted', ci.node)
+    elif any(isinstance(x, ast.Call) and norm(x.func) == 'self._inner.close' for x in ast.walk(close.node)):
+        rep.violated('R15.7', close, 'close', 'close() closes the inner stream: getvalue() after tocsv fails', close.node)
+    else:
+        n += 1
+        rep.held('R15.7', close, 'close', 'does not close the inner stream', close.node)
+    if n < 2:
+        raise AnalysisError('anchor vanished: Uncloseable')
+
+
+# ------------------------------------------------------------------------ R15.8
+RESTARTING_OPENERS = {'gzip.open', 'gzip.GzipFile', 'bz2.BZ2File', 'bz2.open', 'lzma.open', 'lzma.LZMAFile'}
+
+
+def r158(ctx, rep):
+    """append* after to* equals writing the concatenation -- also for the
+    encodings that start a stream with a byte order mark (utf-16, utf-32,
+    utf-8-sig).  io.TextIOWrapper writes the BOM unless the underlying stream
+    is seekable and its position is not 0.  A plain file or the MemorySource
+    buffer opened for append is positioned at its end, so nothing is written
+    twice; gzip.open / bz2.BZ2File in an 'a' mode start a new compressed member
+    whose position counts from 0 again, so the wrapper emits a second BOM in the
+    middle of the data (read back as U+FEFF glued to the first appended cell, or
+    refused by the utf-16 decoder).  Decided from the construction: a writer
+    that is reached with mode 'ab', wraps source.open(mode) in a TextIOWrapper
+    with the caller's encoding unchanged, while some source class forwards the
+    mode to a member-restarting opener."""
+    sm = ctx.project.modules.get('petl.io.sources')
+    if sm is None:
+        raise AnalysisError('anchor vanished: petl.io.sources')
+    restarting = []
+    for cq, ci in sorted(sm.classes.items()):
+        op = ci.methods.get('open')
+        if op is None or len(op.params) < 2:
+            continue
+        mode = op.params[1]
+        for x in own_nodes(op.node):
+            if isinstance(x, ast.Call) and norm(x.func) in RESTARTING_OPENERS and \
+                    any(isinstance(a, ast.Name) and a.id == mode for a in list(x.args) + [k.value for k in x.keywords]):
+                # read-only guards do not matter: local files are opened with the caller's mode
+                restarting.append(ci.name)
+    n = 0
+    for wq, wname, mode in MODES:
+        if mode != "'ab'":
+            continue
+        caller = ctx.project.need_fn(wq)
+        writer = caller.module.functions.get(wname)
+        if writer is None:
+            raise AnalysisError('anchor vanished: %s' % wname)
+        wraps = [x for x in own_nodes(writer.node) if isinstance(x, ast.Call) and norm(x.func).endswith('TextIOWrapper')]
+        if not wraps:
+            rep.held('R15.8', writer, '%s: binary records' % wname, 'no text layer, no byte order mark', writer.node)
+            n += 1
+            continue
+        for w in wraps:
+            n += 1
+            enc = [k.value for k in w.keywords if k.arg == 'encoding']
+            c = '%s append: %s' % (wname, norm(w)[:50])
+            raw = enc and isinstance(enc[0], ast.Name) and enc[0].id in writer.params
+            if raw and restarting:
+                rep.violated('R15.8', writer, c,
+                             'reached with mode \'ab\' the writer wraps the stream with the caller\'s encoding unchanged, and %s '
+                             'start(s) a new compressed member at position 0 for an append: with utf-16 / utf-32 / utf-8-sig a '
+                             'second byte order mark is written in front of the appended rows' % ', '.join(restarting), w)
+            else:
+                rep.held('R15.8', writer, c, 'no member-restarting source / the encoding is adjusted for append', w)
+    if n < 3:
+        raise AnalysisError('anchor vanished: append writers')
